@@ -138,7 +138,22 @@ def gen_hash(rng, tier, mult):
         longs += [32 * 65535 + 1, 32 * 65536 * 2 + 5, 32 * 511 + 31]
     for dk in longs:
         cases.append(["pbkdf2sum %s %s 1 %d" % (hx(data(rl, rl.range(0, 70))), hx(data(rl, rl.range(0, 60))), dk)])
+    cases += big_cases(rng.fork("big"), tier, mult, ["sha1", "md5"] + (["sha256"] if mult >= 10 else []), 1 << 29)
     return cases
+
+
+def big_cases(r, tier, mult, algs, size):
+    """thorough tier and failing-input search only: one update call of >= 2^29 bytes (hashes: the high word of the per-call
+    bit length and the carry between the two count words) / >= 2^32 bytes (CRC32C), against two other partitions of the
+    same bytes (`big`: the implementation against itself — the theorems say the value cannot depend on the partition)"""
+    if tier == "quick" and mult < 10:
+        return []
+    out = []
+    for a in algs:
+        n = size + r.range(1, 300)
+        cut = r.choice([size - 8, size - 1, size // 2, n - 1, 1])
+        out.append(["big %s %d %d %d" % (a, n, cut, r.range(0, 15))])
+    return out
 
 
 def gen_crc(rng, tier, mult):
@@ -160,6 +175,7 @@ def gen_crc(rng, tier, mult):
                     ops.append("crcfin")
             ops.append("crcfin")
         cases.append(ops)
+    cases += big_cases(rng.fork("big"), tier, mult, ["crc"], 1 << 32)
     return cases
 
 
@@ -191,6 +207,8 @@ def classify(case, out):
             tags.append("fin:" + t[1])
         elif t[0] == "addcnt":
             tags.append("addcnt(counter carry)")
+        elif t[0] == "big":
+            tags.append("big:%s:one-call-of-%s-bytes" % (t[1], ">=2^32" if int(t[2]) >= 1 << 32 else ">=2^29"))
     for o in out:
         if o == "skip":
             tags.append("skipped_op")
@@ -219,6 +237,8 @@ def nontrivial_hash(case):
             n += 2
         elif t[0] == "buf" and oplen(op) >= 56:
             n += 2
+        elif t[0] == "big":
+            n += 2
     return n >= 2
 
 
@@ -233,12 +253,14 @@ def components(ctx):
                             "partitions in five styles incl. 0-length calls, 1-3 byte calls, calls ending at a block boundary +-1, multi-block calls; "
                             "HMAC key lengths 0..200 weighted to {63,64,65,128,131,200}; PBKDF2 dkLen 0..100 incl. non-multiples of 32, c in 1..7 (10%: up to 20/60), "
                             "salt lengths around 51/52/59/60 (INT(i) crossing a block); non-trivial = >= 2 data-carrying update calls, or HMAC/PBKDF2, or one-shot >= 56 bytes; "
+                            "thorough tier and failing-input search: one `big` case per algorithm = ONE update call of 2^29 + k bytes against two other partitions of the same bytes; "
                             "distinct by hash of the op list",
                        classify=classify),
         vlib.Component("crc", "h_hash.c", SRCS, ["hash"], gen_crc, cpu=[],
-                       nontrivial=lambda c: any(o.startswith(("crc ", "crcupd")) and oplen(o) >= 5 for o in c),
+                       nontrivial=lambda c: any((o.startswith(("crc ", "crcupd")) and oplen(o) >= 5) or o.startswith("big ") for o in c),
                        rule="one-shot crc at alignment 0..15 and length 0..100 (20%: up to 600/3000) and streaming crcinit/crcupd*/crcfin with chunk lengths "
-                            "around the 4-byte slice (0..5,7,8,9,15,16,17); non-trivial = some buffer of >= 5 bytes (slice-by-4 loop and byte loop both run)",
+                            "around the 4-byte slice (0..5,7,8,9,15,16,17); non-trivial = some buffer of >= 5 bytes (slice-by-4 loop and byte loop both run); "
+                            "thorough tier and failing-input search: one update call of 2^32 + k bytes against two other partitions",
                        classify=classify),
     ]
 
